@@ -6,7 +6,8 @@
      lists are kept apart (`isinstance(x, list)` is false for a tuple) and are
      identified only by the conversion to an OmegaConf container (`to_cfg`).
      Floats are exact decimal rationals compared structurally (the translator
-     and the harness both emit reduced fractions).
+     and the harness both emit reduced fractions); NaN and +-infinity are
+     `VNonFin` (numeric comparisons follow IEEE: anything against NaN is False).
    * `res`: a result or the *kind* of exception raised.
    * the attrs layer: `class_def` (fields, declared type, default, validator,
      `oneof` flag, bases), `mk` (= calling the attrs-generated `__init__` with
@@ -29,12 +30,16 @@ Open Scope string_scope.
 
 (* ---------------------------------------------------------------- values *)
 
+(* IEEE values that are not rational numbers: float('nan'), float('inf'), float('-inf') *)
+Inductive nonfin := NaN | PInf | NInf.
+
 Inductive cfg : Type :=
 | VNone
 | VMissing                                   (* omegaconf.MISSING, '???' *)
 | VBool (b : bool)
 | VInt (z : Z)
 | VFloat (q : Q)
+| VNonFin (k : nonfin)                       (* a float that is NaN or +-infinity *)
 | VStr (s : string)
 | VList (l : list cfg)
 | VTup (l : list cfg)
@@ -64,6 +69,9 @@ Notation "a &&& b" := (if a then b else false) (at level 40, left associativity)
 Definition q_eqb (a b : Q) : bool :=
   Z.eqb (Qnum a) (Qnum b) && Pos.eqb (Qden a) (Qden b).
 
+Definition nonfin_eqb (a b : nonfin) : bool :=
+  match a, b with NaN, NaN | PInf, PInf | NInf, NInf => true | _, _ => false end.
+
 Fixpoint cfg_eqb (a b : cfg) {struct a} : bool :=
   match a with
   | VNone => match b with VNone => true | _ => false end
@@ -71,6 +79,7 @@ Fixpoint cfg_eqb (a b : cfg) {struct a} : bool :=
   | VBool x => match b with VBool y => Bool.eqb x y | _ => false end
   | VInt x => match b with VInt y => Z.eqb x y | _ => false end
   | VFloat x => match b with VFloat y => q_eqb x y | _ => false end
+  | VNonFin x => match b with VNonFin y => nonfin_eqb x y | _ => false end
   | VStr x => match b with VStr y => String.eqb x y | _ => false end
   | VList x =>
       match b with
@@ -167,22 +176,53 @@ Definition num_of (c : cfg) : option Q :=
 Definition qle (a b : Q) : bool := Qle_bool a b.
 Definition qlt (a b : Q) : bool := negb (Qle_bool b a).
 
-Definition py_cmp (op : Q -> Q -> bool) (a b : cfg) : res bool :=
-  match num_of a, num_of b with
+(* Python's numeric comparisons are IEEE comparisons: every comparison with NaN
+   is False, -inf is below and +inf above every rational *)
+Inductive xnum := XFin (q : Q) | XNaN | XPInf | XNInf.
+
+Definition xnum_of (c : cfg) : option xnum :=
+  match c with
+  | VNonFin NaN => Some XNaN
+  | VNonFin PInf => Some XPInf
+  | VNonFin NInf => Some XNInf
+  | _ => match num_of c with Some q => Some (XFin q) | None => None end
+  end.
+
+Definition xle (a b : xnum) : bool :=
+  match a, b with
+  | XNaN, _ | _, XNaN => false
+  | XFin x, XFin y => qle x y
+  | XNInf, _ => true
+  | _, XPInf => true
+  | _, _ => false
+  end.
+Definition xlt (a b : xnum) : bool :=
+  match a, b with
+  | XNaN, _ | _, XNaN => false
+  | XFin x, XFin y => qlt x y
+  | XNInf, XNInf => false
+  | XNInf, _ => true
+  | XPInf, _ => false
+  | XFin _, XPInf => true
+  | XFin _, XNInf => false
+  end.
+
+Definition py_cmp (op : xnum -> xnum -> bool) (a b : cfg) : res bool :=
+  match xnum_of a, xnum_of b with
   | Some x, Some y => Ok (op x y)
   | _, _ => Err TypeError
   end.
-Definition py_le := py_cmp qle.
-Definition py_lt := py_cmp qlt.
-Definition py_ge (a b : cfg) := py_cmp qle b a.
-Definition py_gt (a b : cfg) := py_cmp qlt b a.
+Definition py_le := py_cmp xle.
+Definition py_lt := py_cmp xlt.
+Definition py_ge (a b : cfg) := py_cmp xle b a.
+Definition py_gt (a b : cfg) := py_cmp xlt b a.
 
 Definition py_is_str (c : cfg) : bool := match c with VStr _ => true | _ => false end.
 Definition py_is_list (c : cfg) : bool := match c with VList _ => true | _ => false end.
 Definition py_is_dict (c : cfg) : bool := match c with VDict _ => true | _ => false end.
 (* bool is a subclass of int *)
 Definition py_is_int (c : cfg) : bool := match c with VInt _ | VBool _ => true | _ => false end.
-Definition py_is_float (c : cfg) : bool := match c with VFloat _ => true | _ => false end.
+Definition py_is_float (c : cfg) : bool := match c with VFloat _ | VNonFin _ => true | _ => false end.
 Definition py_is_bool (c : cfg) : bool := match c with VBool _ => true | _ => false end.
 
 (* `x == "literal"` *)
@@ -199,6 +239,7 @@ Definition py_truthy (c : cfg) : bool :=
   | VBool b => b
   | VInt z => negb (Z.eqb z 0)
   | VFloat q => negb (Z.eqb (Qnum q) 0)
+  | VNonFin _ => true
   | VStr s => negb (String.eqb s "")
   | VList l | VTup l => match l with [] => false | _ => true end
   | VDict kv => match kv with [] => false | _ => true end
@@ -444,7 +485,7 @@ Fixpoint to_cfg (cs : list class_def) (t : ty) (opt : bool) (v : cfg) {struct v}
               | TFloat => Ok (VFloat (inject_Z z))
               | _ => Err ValidationError
               end
-  | VFloat _ => match t with TFloat | TAny => Ok v | _ => Err ValidationError end
+  | VFloat _ | VNonFin _ => match t with TFloat | TAny => Ok v | _ => Err ValidationError end
   | VStr _ => match t with TStr | TAny => Ok v | _ => Err ValidationError end
   | VList l | VTup l => match t with TList | TAny => Ok (VList (map plain l)) | _ => Err ValidationError end
   | VDict kv => match t with
@@ -648,6 +689,9 @@ Fixpoint rcfg (v : cfg) : rdr :=
   | VBool b => rbool b
   | VInt z => rZ z
   | VFloat q => fun k => rstr "{""f"":" (rQ q (rstr "}" k))
+  | VNonFin NaN => rstr "{""nf"":""nan""}"
+  | VNonFin PInf => rstr "{""nf"":""inf""}"
+  | VNonFin NInf => rstr "{""nf"":""-inf""}"
   | VStr s => rquoted s
   | VList l => rlist rcfg l
   | VTup l => fun k => rstr "{""t"":" (rlist rcfg l (rstr "}" k))
